@@ -20,7 +20,8 @@ EXPLANATION = ("Sibling agreement of the three feasibility checkers (ChargingNet
                "the algorithm-side copy returns False only under a failed comparison and True only after the loop over all rows; "
                "Interface.is_feasible densifies in network station order, substitutes the network's tolerance only when the argument is "
                "None (not by truthiness) and binds (matrix, linear, violation_tolerance, relative_tolerance) by name; a network without "
-               "constraints returns True before constraint_current is reached, and no Interface path forwards a None constraint matrix.")
+               "constraints returns True before constraint_current is reached, and no Interface path forwards a None constraint matrix."
+               " Added in round 3: a constraint row is passed over only on the passing edge of the comparison of the call's own mode (decision table of the algorithm-side checker, modes by specialisation); constraint_current is analysed per mode by specialisation of its gated result.")
 NOT_DECIDED = "numeric equality of the phasor magnitude computed by the two implementations within floating-point error near the limit"
 
 COEF = ("constraint_matrix",)
